@@ -43,6 +43,24 @@ from gotranx.schemes import Scheme  # noqa: E402
 
 PY = "/venv/bin/python"
 TMPROOT = os.environ.get("TMPDIR") or "/tmp"
+_RUN_ROOT = None
+
+
+def tmp_root() -> str:
+    """directory in which every temp dir of this run is created (removed as a whole at the end)"""
+    return _RUN_ROOT or TMPROOT
+
+
+@contextlib.contextmanager
+def run_root():
+    global _RUN_ROOT
+    prev = _RUN_ROOT
+    _RUN_ROOT = tempfile.mkdtemp(prefix="replay_run_", dir=TMPROOT)
+    try:
+        yield _RUN_ROOT
+    finally:
+        shutil.rmtree(_RUN_ROOT, ignore_errors=True)
+        _RUN_ROOT = prev
 
 
 # --------------------------------------------------------------------------------------
@@ -96,7 +114,7 @@ def quiet():
 
 @contextlib.contextmanager
 def tempdir(prefix="replay_"):
-    d = tempfile.mkdtemp(prefix=prefix, dir=TMPROOT)
+    d = tempfile.mkdtemp(prefix=prefix, dir=tmp_root())
     try:
         yield d
     finally:
@@ -162,7 +180,7 @@ class CLib:
     dir and load it via ctypes; `close()` (or the context manager) removes everything."""
 
     def __init__(self, code: str, cc="gcc", flags=("-shared", "-fPIC", "-O0")):
-        self.dir = tempfile.mkdtemp(prefix="replay_c_", dir=TMPROOT)
+        self.dir = tempfile.mkdtemp(prefix="replay_c_", dir=tmp_root())
         self.lib = None
         src = os.path.join(self.dir, "m.c")
         so = os.path.join(self.dir, "m.so")
@@ -554,11 +572,13 @@ def make_api(mod_globals):
 
     def run(tier, seed, focus, deadline):
         m = types.SimpleNamespace(**{k: v for k, v in mod_globals.items() if not k.startswith("__")})
-        return std_run(m, tier, seed, focus, deadline)
+        with run_root():
+            return std_run(m, tier, seed, focus, deadline)
 
     def replay(failure):
         m = types.SimpleNamespace(**{k: v for k, v in mod_globals.items() if not k.startswith("__")})
-        return std_replay(m, failure)
+        with run_root():
+            return std_replay(m, failure)
 
     return run, replay
 
@@ -666,3 +686,14 @@ def msg_key(e, words=6) -> str:
     s = _re.sub(r"\d+", "N", s)
     s = _re.sub(r"[^A-Za-z_.]+", " ", s).strip().lower().split()
     return "-".join(s[:words])[:60] or "no-message"
+
+
+def compile_key(msg: str, names=()) -> str:
+    """stable slug of a compiler error: model identifiers replaced by NAME, suggestions dropped"""
+    import re as _re
+
+    s = str(msg).split(";")[0]
+    toks = _re.findall(r"[A-Za-z_]\w*|\S", s)
+    toks = ["NAME" if t in names else t for t in toks]
+    s = _re.sub(r"[^A-Za-z0-9_]+", "-", " ".join(toks)).strip("-")
+    return s[:60] or "compile-failed"
